@@ -86,10 +86,12 @@ PROPS: dict = {
                     "estimator, the centroids compared with the majority vote of the current clusters; S-ASSIGN: explicit reinsert labels "
                     "(permutation, duplicate id, out-of-range id, re-insertion without reset): refused or the ranks, vs the model; "
                     "non-trivial = fit with more than one cluster"},
-    "C20": {"suites": [monitor.suite_monitor, gen.suite_gen({"monitor"})], "rule": RULE_MON + "; S-GEN monitor stream: bblean._memory.monitor_rss_process "
+    "C20": {"suites": [monitor.suite_monitor, gen.suite_gen({"monitor", "reader"})], "rule": RULE_MON + "; S-GEN monitor stream: bblean._memory.monitor_rss_process "
             "run for real (real files) with a scripted process tree, clock and sleep; every iteration's file effects recorded at the module's "
-            "own open / os / time names vs the generated loop body, and the peak file after every iteration = the complete running maximum",
-            "proof_modules": ["BBProps.C20", "BBProofs.Monitor", "BBModel.Monitor", "BBProofs.GenEq7", "BBProofs.GenEq", "BBProofs.PyNum", "BBGen.Gen", "BBModel.PyNum"]},
+            "own open / os / time names vs the generated loop body, and the peak file after every iteration = the complete running maximum; "
+            "reader stream: get_peak_memory_gib on real files (absent, complete reprs of floats, their proper prefixes, empty, odd literals) vs "
+            "the generated function, effects and value or ValueError",
+            "proof_modules": ["BBProps.C20", "BBProofs.Monitor", "BBModel.Monitor", "BBProofs.GenEq7", "BBProofs.GenEq10", "BBProofs.GenEq", "BBProofs.PyNum", "BBGen.Gen", "BBModel.PyNum"]},
     "C15": {"suites": [cli.suite_run, cli.suite_multiround, gen.suite_gen({"validate"})],
             "rule": "`bb run` through typer's CliRunner in-process (and as a subprocess of /venv/bin/bb when the memory monitor is on) over random "
                     "combinations of: six merge x six refine criteria, refine-num 0-2, refine-rounds none/0-2, recluster rounds 0-2 with and "
@@ -101,8 +103,9 @@ PROPS: dict = {
                     "processes 1-3, overwrite, save-tree, cleanup, compared file by file with the API in a fresh directory and with the model; "
                     "non-trivial = run whose result has a multi-member cluster / more than one input file",
             "proof_modules": ["BBProps.C15", "BBProofs.Cli", "BBProofs.CliMulti", "BBModel.Cli"]},
-    "C16": {"suites": [files.suite_smiles, files.suite_split_merge, files.suite_fileseq, files.suite_info],
-            "rule": "`bb fps-from-smiles` as a subprocess on generated SMILES lists (1-40 entries over 1-2 .smi files, invalid entries of three "
+    "C16": {"suites": [files.suite_smiles, files.suite_split_merge, files.suite_fileseq, files.suite_info, gen.suite_gen({"numbatch"})],
+            "rule": "S-GEN numbatch stream: parse_num_per_batch compiled from the source text of the imported cli module vs the generated function "
+                    "(totals up to 2^53 - 1, parts / max per file / neither / both / zero); `bb fps-from-smiles` as a subprocess on generated SMILES lists (1-40 entries over 1-2 .smi files, invalid entries of three "
                     "kinds at random positions, --num-parts / --max-fps-per-file / neither, 1-8 processes, pack/no-pack, uint8/uint16/int64, "
                     "three fingerprint kinds, skip-invalid on/off) compared with the in-process fps_from_smiles on the same strings and "
                     "with the model's part names, part sizes and invalid indices; fps-split / fps-merge / fps-shuffle through the real "
@@ -110,7 +113,7 @@ PROPS: dict = {
                     "_get_fingerprints_from_file_seq / _FingerprintFileSequence on 1-5 files incl. empty ones with sorted, repeated, empty, "
                     "unsorted and out-of-range index lists vs the model and vs indexing the concatenation; fps-info on files and directories "
                     "of valid and invalid shapes and dtypes; non-trivial = run with more than one SMILES / part / file",
-            "proof_modules": ["BBProps.C16", "BBProofs.FileSeq", "BBModel.FileSeq"]},
+            "proof_modules": ["BBProps.C16", "BBProofs.FileSeq", "BBModel.FileSeq", "BBProofs.GenEq11", "BBProofs.GenEq", "BBProofs.Fl", "BBGen.Gen", "BBModel.PyNum"]},
     "C19": {"suites": [metrics.suite_indices, metrics.suite_analysis, metrics.suite_summary],
             "rule": "CHI / DBI / Dunn of the real bblean.metrics on generated clusterings (1-6 clusters of 1-9 rows, F in {5,8,13,16,64}, incl. "
                     "singleton clusters, duplicate rows and equal centroids) for packed and unpacked input and for three random permutations "
